@@ -175,6 +175,8 @@ def run_shard(shard, ctx):
                 ctx.sample({'config': name, 'keys_a': list(kx), 'keys_b': list(ky), 'keys_out': list(r.keys())})
             if st == 'ok' and ctx.rng.random() < 0.12:
                 ops.check_special_values(ctx, alg, iso, cfg, 'gp', (kx, ky), cid)
+            if st == 'ok' and len(kx) * len(ky) <= 16 and ctx.rng.random() < 0.03:
+                ops.check_sympy_values(ctx, alg, iso, cfg, 'gp', (kx, ky), cid)
             if st == 'ok' and ctx.rng.random() < 0.12:
                 kind = ctx.rng.choice(['int', 'frac', 'float', 'array', 'array2'])
                 va, vb = numeric_kinds(ctx.rng, kx, kind), numeric_kinds(ctx.rng, ky, kind)
